@@ -7,6 +7,8 @@ Bounded (Kani): the real SimpleTermIndex meets the TermIndex stand-in contract (
 """
 import json
 from engine import core, verus, native
+from engine.core import Undecided
+from engine.rsx import LostAnchor, RewriteRefused
 from units import store, iters
 
 LEVEL = "proof"
@@ -19,13 +21,20 @@ def run(rep):
     rep.assume("R0 stand-ins: trait TermIndex/GraphNameIndex with the contract of DESIGN 4.1 (get_index = lookup in an injective ghost map, ensure_index = lookup-or-extend, Err => map unchanged, reserved index never issued); trait Term reduced to its identity key()")
     rep.assume("the real SimpleTermIndex meets that contract: checked only by the bounded Kani unit U-INDEX")
     failed_all = []
+    lost = []
     for name, builder in (("store_graph", store.build_graph), ("store_dataset", store.build_dataset),
                           ("iter_graph", iters.build_graph), ("iter_dataset", iters.build_dataset)):
-        info = builder(core.REPO)
+        try:
+            info = builder(core.REPO)
+            res = verus.run_verus(ID, name, info["text"])
+        except (LostAnchor, RewriteRefused, Undecided) as e:
+            # the unit cannot be generated / type-checked any more (function rewritten): undecided, unless the
+            # native enumerator exhibits a failing history on the real stores (decided below)
+            lost.append((name, str(e)[:500]))
+            continue
         rep.cuts.update(info["cuts"])
         for k, v in info["rewrites"].items():
             rep.rewrites[k] = rep.rewrites.get(k, 0) + v
-        res = verus.run_verus(ID, name, info["text"])
         failed = verus.record(rep, res, info["expect_functions"], "verus:%s::" % name, "")
         failed_all += [(name, f, res) for f in failed]
     rep.functions += [
@@ -37,12 +46,23 @@ def run(rep):
     ]
     rep.assume("R0 stand-ins of U-ITER: BT<'a,TI> for the GAT BorrowTerm<'a>; BTreeSet Iter/Range abstracted as the ghost sequence still to be yielded (next() pops its head); TermMatcher/GraphNameMatcher::matches decide ghost predicates; Term::eq / graph_name_eq decide identity (C02); == on the index type is structural")
     # vacuity canary: a contract demanding the wrong flag must be refuted
-    info = store.build_graph(core.REPO)
-    bad = info["text"].replace("r is Ok ==> r->Ok_0 == !old(self).view().contains((s.key(), p.key(), o.key())),",
-                               "r is Ok ==> r->Ok_0 == old(self).view().contains((s.key(), p.key(), o.key())),")
-    cres = verus.run_verus(ID, "store_graph_canary", bad)
-    ok = cres["funcs"].get("GenericFastGraph::insert") is False and cres["funcs"].get("GenericLightGraph::insert") is False
-    rep.guard("canary: insert contract with the inverted flag must be refuted", ok, str({k: v for k, v in cres["funcs"].items() if "insert" in k}))
+    if not any(n == "store_graph" for n, _ in lost):
+        info = store.build_graph(core.REPO)
+        bad = info["text"].replace("r is Ok ==> r->Ok_0 == !old(self).view().contains((s.key(), p.key(), o.key())),",
+                                   "r is Ok ==> r->Ok_0 == old(self).view().contains((s.key(), p.key(), o.key())),")
+        cres = verus.run_verus(ID, "store_graph_canary", bad)
+        ok = cres["funcs"].get("GenericFastGraph::insert") is False and cres["funcs"].get("GenericLightGraph::insert") is False
+        rep.guard("canary: insert contract with the inverted flag must be refuted", ok, str({k: v for k, v in cres["funcs"].items() if "insert" in k}))
+    if lost:
+        rc, out, err, secs = native.run_replay(ID, "c01", [])
+        if rc == 1:
+            for name, why in lost:
+                rep.obligation("verus:%s (unit)" % name, "verus/z3", False, detail="obligations cannot be generated: " + why)
+                rep.violation("verus:%s (unit)" % name, "the obligations of unit %s, discharged on the unchanged tree, cannot be generated or checked any more (%s); failing history found on the real stores" % (name, why),
+                              witness=out.strip().splitlines()[-1], replay_text="./check C01 --replay <this file>", confirmed=True)
+        else:
+            for name, why in lost:
+                rep.undecided.append("unit %s: %s (and the enumerator found no failing history)" % (name, why.replace("\n", " | ")))
     if failed_all:
         rc, out, err, secs = native.run_replay(ID, "c01", [])
         witness, confirmed = None, False
